@@ -3,6 +3,11 @@ package main
 import (
 	"fmt"
 	"os"
+
+	"github.com/onflow/cadence/encoding/ccf"
+	jsoncdc "github.com/onflow/cadence/encoding/json"
+
+	"verif/harness/internal/l3run"
 	"verif/harness/internal/lang"
 )
 
@@ -15,8 +20,18 @@ func main() {
 	}
 	for _, m := range []lang.Mode{lang.Interp, lang.VM, lang.VMPeephole} {
 		o := lang.Run(src, m)
-		fmt.Println(m, lang.Observation(o))
-		if o.Err != nil { fmt.Println("   ", o.Err) }
-		for _, e := range o.Events { fmt.Println("   ev:", e.String()) }
+		fmt.Println(m, l3run.Obs(o))
+		if o.Err != nil {
+			fmt.Println("   ", o.Err)
+		}
+		for _, e := range o.Events {
+			j, jerr := jsoncdc.Encode(e)
+			c, cerr := ccf.Encode(e)
+			fmt.Printf("   json=%s err=%v\n   ccf=%x err=%v\n", j, jerr, c, cerr)
+			if cerr == nil {
+				v, derr := ccf.Decode(nil, c)
+				fmt.Printf("   ccf-decoded=%v err=%v\n", v, derr)
+			}
+		}
 	}
 }
